@@ -38,6 +38,19 @@ def ops_for(declared, flavour):
             out.append(("A %s<<%s" % (x, x), [ex(mcall(var(x), "@append", var(x)))], []))
         else:
             out.append(("A %s<<%s" % (x, x), [ex(mcall(var(x), "@put", s("p"), var(x)))], []))
+        # binding the RESULT of a call: 后增 yields its receiver, 写入 the stored value, 读取-like index reads a stored element -
+        # the bound name still gets its own copy
+        for y in declared:
+            if x != y:
+                if flavour == "list":
+                    out.append(("SR %s=%s.app" % (y, x), [ex(asg(var(y), mcall(var(x), "@append", num(6))))], []))
+                else:
+                    out.append(("SR %s=%s.put" % (y, x), [ex(asg(var(y), mcall(var(x), "@put", s("q"), lst(num(6)))))], []))
+        if fresh:
+            if flavour == "list":
+                out.append(("DR %s=%s.app" % (fresh[0], x), [decl(fresh[0], mcall(var(x), "@append", num(6)))], [fresh[0]]))
+            else:
+                out.append(("DR %s=%s.put" % (fresh[0], x), [decl(fresh[0], mcall(var(x), "@put", s("q"), lst(num(6))))], [fresh[0]]))
         # mutations through x
         out.append(("m1 %s" % x, [ex(asg(idx(idx(var(x), k1), num(1)), num(9)))], []))
         out.append(("m2 %s" % x, [ex(mcall(idx(var(x), k1), "@append", num(7)))], []))
@@ -130,7 +143,7 @@ def run(ctx):
     samples = [dict(tag=p["tag"], source=res[p["id"]].get("src"), spec_display=vecs[p["id"]]["out"]) for p in pick]
     cov = dict(traces_validated_against_impl=stats["programs"] - stats["skipped"], samples=samples,
                evaluations=stats["programs"], distinct_nontrivial=len(set(p["tag"] for p in progs)),
-               rule="copy/mutate histories over names A..D starting from a nested list or a dictionary of lists: steps = declare-copy, multi-declare, assign, the same three with a literal that mentions a variable, "
+               rule="copy/mutate histories over names A..D starting from a nested list or a dictionary of lists: steps = declare-copy, multi-declare, assign, the same three with a literal that mentions a variable or with the result of a storing method (which yields its receiver / the stored value), "
                     "element/key assignment of a collection, 5 mutations through any name at nesting 1-2 (index/key assignment, 后增, 左移, 写入, 移除), "
                     "mutation through a 遍历 loop variable; every variable is displayed after every step. Exhaustive for <= %d steps, seeded random for 3-5 "
                     "steps; plus object sharing / default-copy / literal-freshness programs. The ZnEval heap machine (deep copy on bind, reference "
